@@ -100,6 +100,18 @@ def cases(ctx):
             q["names"] = [ren.get(n, n) for n in q["names"]]
             pre.append(q)
     fams.append(("PREFIX", pre))
+    disj = []
+    for j in range(12 if ctx.quick else 120):
+        r = ctx.rng("C11disj", j)
+        a = gen.rand_circuit(r, n_in=r.randint(1, 3), n_gates=r.randint(2, 5), max_fanin=3, names=["p0", "p1", "p2"])
+        b = gen.rand_circuit(r, n_in=r.randint(1, 2), n_gates=r.randint(1, 4), max_fanin=3, names=["f", "h"])
+        import networkx as nx
+
+        g = nx.union(a.graph, nx.relabel_nodes(b.graph, {n: "z_" + n for n in b.graph.nodes if n not in ("f", "h")}))
+        from ..proj import proj_graph
+
+        disj.append(proj_graph(g, "disj"))
+    fams.append(("DISJ", disj))
     for src, fam in fams:
         for k, p in enumerate(fam):
             r = ctx.rng("C11n", src, k)
@@ -174,6 +186,11 @@ def run_case(case, ctx):
                 "m": proj(m) if m is not None else {}, "exc": exc, "nontrivial": nsp >= 2}
     if case["op"] == "sensitize":
         exc, res = "", None
+        if ctx.rng("C11hist", n, len(case["assum"])).random() < 0.5:
+            try:    # an earlier analysis on the same object must leave nothing behind (output marks, names, registry)
+                cg.props.influence(c, n, approx=False)
+            except Exception:
+                pass
         try:
             res = cg.props.sensitize(c, n, {k: v for k, v in case["assum"]})
         except Exception as e:
